@@ -149,3 +149,16 @@ class InputLog:
     def __exit__(self, *a):
         H.get_input = self.real
         return False
+
+
+def witness(*vals):
+    """Record the realised values of a finished path (one concrete representative per explored path)."""
+    try:
+        from crosshair.core import deep_realize
+
+        vals = deep_realize(vals)
+    except Exception:  # noqa (replay without tracing: values are concrete already)
+        pass
+    with NoTracing():
+        if len(_WITNESSES) < 400:
+            _WITNESSES.append(vals)
